@@ -169,6 +169,9 @@ func runC03(c *Ctx) error {
 					}
 					u := "http://h.example/p?a=1&k=" + url.QueryEscape(v.(string))
 					emit(&walkCall{Entry: "url", Rules: map[string]string{"k": tag}, Src: u}, "k", "url")
+					if isZero { // the same empty value written as a bare key after a parameter that has a value
+						emit(&walkCall{Entry: "url", Rules: map[string]string{"k": tag}, Src: "http://h.example/p?a=13812345678&k&b=2"}, "k", "url-bare")
+					}
 				}
 			}
 		}
